@@ -76,12 +76,15 @@ func funcLength(js JSWriter, args []ast.Node) {
 }
 
 func funcRound(js JSWriter, args []ast.Node) {
+	// soyhtml's round() rounds ties away from zero (its TestRound expects round(-1.5) = -2) and Math.round rounds
+	// them toward +infinity; Number.prototype.toFixed(0) rounds the magnitude, ties to the larger one (ES5
+	// 15.7.4.5), and the division turns its string back into a number.
 	switch len(args) {
 	case 1:
-		js.Write("Math.round(", args[0], ")")
+		js.Write("(", args[0], ").toFixed(0) / 1")
 	default:
 		js.Write(
-			"Math.round(", args[0], "* Math.pow(10, ", args[1], ")) / Math.pow(10, ", args[1], ")")
+			"(", args[0], " * Math.pow(10, ", args[1], ")).toFixed(0) / Math.pow(10, ", args[1], ")")
 	}
 }
 
